@@ -452,6 +452,21 @@ def fam_random(rnd, n):
     return out
 
 
+def fam_kind_words_in_names():
+    """Element names that contain the words itext ids are built from (label, hint, guidance_hint, constraintMsg ...):
+    ids are <path>:<kind>, so a name containing a kind word must not confuse reference and entry side."""
+    out = []
+    for word in ("guidance_hint", "hint", "label", "jr_constraintMsg", "guidance_hint_q", "x_guidance_hint", "image"):
+        for wrap in (None, "group", "repeat"):
+            rows = [f"| | text | {word} | L en | L fr | H en | H fr | G en | G fr |"]
+            if wrap:
+                rows = [f"| | begin {wrap} | {word}_{wrap[0]} | W en | W fr | | | | |"] + rows + [f"| | end {wrap} | | | | | | | |"]
+            md = ("| survey |\n| | type | name | label::English (en) | label::French (fr) | hint::English (en) | hint::French (fr) "
+                  "| guidance_hint::English (en) | guidance_hint::French (fr) |\n" + "\n".join(rows) + "\n")
+            out.append(Case(f"kindword[{word}|{wrap}]", md=md, origin="C07 family: kind words in names"))
+    return out
+
+
 def cases(tier, seed):
     rnd = random.Random(seed * 7919 + 7)
     thorough = tier == "thorough"
@@ -472,6 +487,7 @@ def cases(tier, seed):
         out += fam_question_kinds(LANG_PAIRS[:1], lp_quick, (False, True), one_cfg)
         out += fam_question_kinds(LANG_PAIRS[1:3], lambda a, b: [(), (a, b)], (True,), one_cfg)
     out += fam_defaults(LANG_PAIRS)
+    out += fam_kind_words_in_names()
     if thorough:
         out += fam_choices(LANG_PAIRS[:2], 2, USAGES, _medias_small)
         out += fam_choices(LANG_PAIRS[:1], 3, ["one", "or_other", "search"], _medias_one, list_names=("l",))
